@@ -66,7 +66,7 @@ func bind(ns, st *ConcState, dst, src ssa.Value) {
 	if n, ok := st.IsNil(src); ok {
 		ns.nils[dst] = n
 	}
-	if s := st.Desc(src); len(s) < 240 {
+	if s := st.Desc(src); len(s) < 4000 {
 		ns.syms[dst] = s
 	}
 	ns.alias[dst] = src
@@ -242,6 +242,21 @@ func (st *ConcState) eval(v ssa.Value, d int) (int64, bool) {
 		if x.Op == token.NOT {
 			if k, ok := st.eval(x.X, d+1); ok {
 				return 1 - k, true
+			}
+		}
+	case *ssa.Call:
+		// len of a value known to be nil on this path
+		if CallBuiltin(x) == "len" && len(x.Call.Args) == 1 {
+			a := x.Call.Args[0]
+			for k := 0; k < 8; k++ {
+				if n, known := st.IsNil(a); known && n {
+					return 0, true
+				}
+				nx := st.alias[a]
+				if nx == nil {
+					break
+				}
+				a = nx
 			}
 		}
 	case *ssa.BinOp:
